@@ -93,7 +93,8 @@ type c16RevState struct {
 // c16Act is one write of a THIRD PARTY (garbage collector, administrator, another
 // controller) interleaved with the Establish call of the step: it happens right
 // before the real (non-dry-run) write that the goroutine of object I issues, i.e.
-// after the validate phase has seen the object. "del" deletes the object with
+// after the validate phase has seen the object; I = -1: between the validate phase
+// and the establish phase (before the first real write, whichever object it is for). "del" deletes the object with
 // this key, "put" creates it or replaces it (fresh resourceVersion) with the given
 // body and owner references.
 type c16Act struct {
